@@ -99,6 +99,11 @@ def flips(base: str, positions=None, alphabet=ALPHABET):
 INSERT_ALPHABET = ['"', "'", "(", "[", "{", ")", "$", "!", "?", "@", "\\", ".", "_", "0", "e", "r", "p", "u", "\n", " "]
 
 
+# used by the seeded faults only: look-alikes and invisible characters, upper-case radix / exponent / prefix letters
+SEEDED_EXTRA = ["\u201c", "\u2019", "\u2013", "\u2212", "\u2026", "\u00a0", "\u200b", "\ufeff", "X", "B", "O", "E", "J", "P", "R",
+                "U", "F", "N", "_", "0", "x", "e", "j"]
+
+
 def deletions(base: str, positions=None):
     """A lost character: the stored text with one position missing."""
     for i in positions if positions is not None else range(len(base)):
@@ -131,7 +136,7 @@ def seeded_faults(base: str, others: list[str], rng, n: int):
                         "trunc+flip", "insert", "insert", "delete"])
         if k == "insert":
             i = rng.choice(hot) if rng.random() < 0.6 else rng.randrange(len(base) + 1)
-            sym = rng.choice(INSERT_ALPHABET + ALPHABET)
+            sym = rng.choice(INSERT_ALPHABET + ALPHABET + SEEDED_EXTRA)
             yield {"kind": "insert", "at": i, "sym": sym}, base[:i] + sym + base[i:]
             continue
         if k == "delete":
@@ -140,7 +145,7 @@ def seeded_faults(base: str, others: list[str], rng, n: int):
             continue
         if k == "flip":
             i = rng.choice(hot) if rng.random() < 0.7 else rng.randrange(len(base))
-            sym = rng.choice(ALPHABET)
+            sym = rng.choice(ALPHABET + SEEDED_EXTRA)
             yield {"kind": "flip", "at": i, "to": sym}, base[:i] + sym + base[i + 1:]
         elif k == "burst":
             i = rng.randrange(len(base))
